@@ -1,6 +1,7 @@
 package main
 
 import (
+	"bytes"
 	"encoding/hex"
 	"errors"
 	"fmt"
@@ -31,7 +32,7 @@ func c13Parse(toks []string) []c13Op {
 		op := c13Op{kind: t[0]}
 		arg := t[1:]
 		switch t[0] {
-		case 'w':
+		case 'w', 'o':
 			n := atoi(arg)
 			op.data = make([]byte, n)
 			for i := range op.data {
@@ -60,6 +61,15 @@ func c13Parse(toks []string) []c13Op {
 	}
 	return ops
 }
+
+type c13FailReader struct{}
+
+func (c13FailReader) Read([]byte) (int, error) { return 0, errors.New("reader failed") }
+
+// c13ChunkReader delivers its data in one Read (ReadOnce reads once).
+type c13ChunkReader struct{ data []byte }
+
+func (r *c13ChunkReader) Read(p []byte) (int, error) { return copy(p, r.data), nil }
 
 // c13Try runs f; a panic is reported as ok=false.
 func c13Try(f func() string) (s string, ok bool) {
@@ -148,6 +158,23 @@ func c13Buffer(toks []string) string {
 			case 'w':
 				scratch := append([]byte(nil), op.data...)
 				n, err := b.Write(scratch)
+				for i := range scratch {
+					scratch[i] = 0xEE
+				}
+				if err != nil {
+					return fmt.Sprintf("W%d!%v", n, err)
+				}
+				return fmt.Sprintf("W%d", n)
+			case 'o':
+				// Buffer.ReadOnce: the second way into Write. First a reader that fails (nothing may
+				// change, (0, err) expected), then a reader that delivers exactly the payload into a
+				// larger scratch buffer, which is scribbled over afterwards.
+				before := append([]byte(nil), b.Bytes()...)
+				if n, err := b.ReadOnce(c13FailReader{}, make([]byte, len(op.data)+3)); n != 0 || err == nil || !bytes.Equal(before, b.Bytes()) {
+					return fmt.Sprintf("READONCE-ERROR-PATH n=%d err=%v", n, err)
+				}
+				scratch := make([]byte, len(op.data)+3)
+				n, err := b.ReadOnce(&c13ChunkReader{data: op.data}, scratch)
 				for i := range scratch {
 					scratch[i] = 0xEE
 				}
